@@ -58,10 +58,10 @@ ASSUMPTIONS = [
 MIN_DISTINCT = {'quick': 300, 'thorough': 4000}
 CASE_TIMEOUT = 300
 
-N_SCRIPTED = {'quick': 140, 'thorough': 1600}
-N_OPTIM = {'quick': 45, 'thorough': 400}
-N_CRASH = {'quick': 28, 'thorough': 220}
-N_CRASH_OPTIM = {'quick': 9, 'thorough': 72}
+N_SCRIPTED = {'quick': 140, 'thorough': 1200}
+N_OPTIM = {'quick': 45, 'thorough': 360}
+N_CRASH = {'quick': 16, 'thorough': 160}
+N_CRASH_OPTIM = {'quick': 9, 'thorough': 54}
 
 ALGOS = ['scipy', 'LS-newton', 'TR-newton', 'LS-BFGS', 'TR-BFGS', 'simple_bounds', 'simple_bounds_newton', 'simple_bounds_BFGS', 'automatic']
 BOUND_ALGOS = {'scipy', 'simple_bounds', 'simple_bounds_newton', 'simple_bounds_BFGS', 'automatic'}
@@ -70,7 +70,7 @@ DIRECTED = ['worse-overwrites-better', 'kill-inside-save-block', 'nan-first-like
 SYSCALLS = ['openat', 'write', 'close', 'rename', 'renameat', 'renameat2', 'unlink', 'unlinkat', 'ftruncate', 'fsync', 'fdatasync']
 TOOL_ID = 4  # failpoint tool (forked copies only)
 SNAP_TOOL_ID = 3  # snapshot tool (observing process)
-MAX_REAL_LINE_KILLS = {'quick': 70, 'thorough': 100000}
+MAX_REAL_LINE_KILLS = {'quick': 40, 'thorough': 100000}
 
 
 def cases(seed, tier):
@@ -101,7 +101,7 @@ MON = _Mon()
 def _read(path):
     try:
         with open(path, 'rb') as f:
-            return f.read()
+            return f.read(1 << 23)
     except FileNotFoundError:
         return None
 
@@ -202,6 +202,14 @@ def warmup():
         if a is None:
             return
         a['n'] += 1
+        try:
+            st = os.stat(a['path'])
+            sig = (st.st_ino, st.st_size, st.st_mtime_ns)
+        except FileNotFoundError:
+            sig = None
+        if sig == a.get('sig', 0):
+            return  # same inode, size and modification time as at the previous boundary
+        a['sig'] = sig
         c = _read(a['path'])
         if c != a['last']:
             a['states'].append((a['n'], c))
@@ -463,7 +471,7 @@ class Session:
                 rec.c('evaluations_with_every_line_stop_point_really_killed')
             else:
                 # every statement boundary is still observed by the snapshot monitor; real kills on an even sample
-                keep = set(range(1, 16)) | set(range(total - 14, total + 1)) | {round(1 + i * (total - 1) / (cap - 31)) for i in range(cap - 30)}
+                keep = set(range(1, 5)) | set(range(total - 15, total + 1)) | {round(1 + i * (total - 1) / (cap - 21)) for i in range(cap - 20)}
                 points = sorted(p_ for p_ in keep if 1 <= p_ <= total)
                 rec.c('evaluations_with_sampled_line_stop_points_really_killed')
             for j in points:
@@ -754,7 +762,7 @@ def _gen_scripted(case, crash=False):
         k = r.choice([1, 1, 2, 2, 3, 4, 5, 7, 10, 15, 25, 40])
         names_mode = r.choice(['hostile', 'hostile', 'plain', 'long' if k >= 20 else 'hostile'])
         length = r.randint(3, 40) if r.random() < 0.8 else r.randint(40, 120)
-    spec = gen.make_quad(r, k, names_mode, hostile_values=r.random() < 0.7, with_log=r.random() < 0.6)
+    spec = gen.make_quad(r, k, names_mode, hostile_values=r.random() < 0.7, with_log=r.random() < 0.6, with_sqrt=r.random() < 0.5)
     steps = gen.make_history(r, spec, length, nonfinite=True)
     scaled_mode = r.choice(['never', 'never', 'never', 'always', 'mixed'])
     return r, spec, steps, scaled_mode
@@ -794,7 +802,7 @@ def run_crash(case, rec, spec=None, steps=None, scaled_mode='never', plan_kinds=
     sess.tie_rel = 0.0 if scaled_mode == 'never' else 4e-15
     # targets by intent: first, first 'improve', first 'worsen-mid' (or any worsen), last
     targets = {1, len(steps)}
-    for want in (('improve',), ('worsen-mid', 'worsen-far'), ('nonfinite-g', 'nan-f', 'nan-x')):
+    for want in (('improve',), ('worsen-mid', 'worsen-far'), ('nonfinite-g', 'nan-f', 'nan-x', 'inf-g-finite-f', 'inf-g-finite-f-better')):
         for j, st in enumerate(steps):
             if j > 0 and st['intent'] in want:
                 targets.add(j + 1)
@@ -943,7 +951,7 @@ def _simple_spec(names, model='directed', inits=None, cs=None, logp=None):
     params = []
     for i, n in enumerate(names):
         params.append({'name': n, 'role': 'tame', 's': 1.0, 'c': (cs[i] if cs else 1.0), 'wt': 1.0, 'init': (inits[i] if inits else 0.0), 'lb': None, 'ub': None})
-    spec = {'kind': 'quad', 'model_name': model, 'rows': [[1.0, 1.0], [0.5, 2.0], [1.5, 1.0]], 'params': params, 'logp': None}
+    spec = {'kind': 'quad', 'model_name': model, 'rows': [[1.0, 1.0], [0.5, 2.0], [1.5, 1.0]], 'params': params, 'logp': None, 'sqrtp': None}
     if logp:
         spec['logp'] = logp
         params.append({'name': logp, 'role': 'logp', 's': 1.0, 'c': 0.0, 'wt': 1.0, 'init': 2.0, 'lb': None, 'ub': None})
